@@ -1,5 +1,19 @@
 """Canonical, comparable description of a built DAG (ids, references, attributes, constants)."""
+import re
 from typing import Any
+
+_ADDR = re.compile(r" at 0x[0-9a-fA-F]+")
+
+
+def _norm(x: Any) -> Any:
+    """Ids of constant return holders embed repr(function), i.e. a memory address: drop it."""
+    if isinstance(x, str):
+        return _ADDR.sub("", x)
+    if isinstance(x, (list, tuple)):
+        return type(x)(_norm(y) for y in x)
+    if isinstance(x, dict):
+        return {_norm(k): _norm(v) for k, v in x.items()}
+    return x
 
 
 def dump(dag: Any) -> Any:
@@ -18,5 +32,5 @@ def dump(dag: Any) -> Any:
         rr = {k: ref(u) for k, u in rets.items()}
     else:
         rr = ref(rets)
-    return (nodes, consts, [ref(u) for u in dag.input_uxns], rr, dag.max_concurrency,
-            sorted(dag.graph_ids.edges), dict(dag.graph_ids.compound_priority))
+    return _norm((nodes, consts, [ref(u) for u in dag.input_uxns], rr, dag.max_concurrency,
+                  sorted(dag.graph_ids.edges), dict(dag.graph_ids.compound_priority)))
